@@ -270,9 +270,16 @@ class C06(Check):
             self.lik_check(unhex(o["lik0"][0]), net, st, K, assort, {"directed": directed, "assortative": assort, "K": K, "L": L,
                            "records": recs, "weight_type": wt, "u": u, "v": v, "w": w}, "state")
         # cadence: the reported value is the evaluation after sweep 10*floor((n-1)/10)+1
-        runs = {"cd%d" % n: random_run(rng, tr=2, variants=ALL_VARIANTS, maxit=rng.choice([1, 7, 10, 11, 12, 21, 25]),
-                                       nconv=rng.choice([1, 2, 3]), r=rng.choice([1, 2])) for n in range(n_traj)}
-        io2, mo2 = self.correspond("run", [rc.line(c) for c, rc in runs.items()], keys=["L2s", "iters", "reasons"])
+        # a third of the calls hand in non-zero output containers, several realizations, and a vertex without
+        # out-edges: whatever the work matrices then hold, the reported value is the likelihood of the factors
+        runs = {}
+        for n in range(n_traj):
+            rc = random_run(rng, tr=2, variants=ALL_VARIANTS, maxit=rng.choice([1, 7, 10, 11, 12, 21, 25]),
+                            nconv=rng.choice([1, 2, 3]), r=rng.choice([1, 2, 3]), prior=rng.choice([0.0, 0.0, 2.5]))
+            if rc.prior and rng.random() < 0.8:
+                rc.recs = rc.recs + [(rc.recs[0][0], 997, [1] * rc.L)]
+            runs["cd%d" % n] = rc
+        io2, mo2 = self.correspond("run", [rc.line(c) for c, rc in runs.items()], keys=["L2s", "iters", "reasons"], drift=True)
         for cid, rc in runs.items():
             o = io2.get(cid)
             if not o or o.get("err") != ["0"]:
